@@ -225,8 +225,17 @@ def compare(ctx, prefix, got, want, atol, info):
 def run_history(c, ctx):
     homog = c["family"] == "homog"
     cls, d, opts = c["cls"], c["d"], c["opts"]
-    src = gen.arr(c["src"])
-    pool = [gen.arr(t) for t in c["targets"]]
+    off = float(c.get("frame_offset", 0.0))
+    src = gen.arr(c["src"]) + off
+    pool = [gen.arr(t) + off for t in c["targets"]]
+    ints = list(c.get("int_targets", [False] * len(pool)))
+    for i, flag in enumerate(ints):
+        if flag:
+            pool[i] = np.round(pool[i])  # given as integer-typed coordinates (see target_obj)
+    if off:
+        ctx.event("frame offset %g" % off)
+    if any(ints):
+        ctx.event("some targets integer-typed")
     ctx.event("class=%s %dD %s" % (cls, d, ",".join("%s=%s" % kv for kv in sorted(opts.items()) if kv[0] not in ("grid", "diag"))))
 
     # caller-provided objects and their digests
@@ -246,7 +255,8 @@ def run_history(c, ctx):
     def target_obj(ti, reuse):
         if reuse and ti in passed:
             return passed[ti]
-        passed[ti] = provide("target", PointCloud(pool[ti].copy()))
+        arr = pool[ti].astype(np.int64) if ints[ti] else pool[ti].copy()
+        passed[ti] = provide("target", PointCloud(arr))
         return passed[ti]
 
     # construction (not through build(): the live object holds the caller's objects)
@@ -264,10 +274,12 @@ def run_history(c, ctx):
         q = objs.bary_points(src, trilist, c["probes"])
     else:
         trilist = None
-        q = gen.arr(c["probes"])
+        q = gen.arr(c["probes"]) + off
     q_before = q.copy()
     sc = _scale(src, q, *pool)
-    tight = 1e-10 * sc
+    # fresh-vs-retargeted runs the same code on the same numbers: the tolerance only has to absorb rounding noise, which
+    # grows with the coordinate magnitude (frame offset) through cancellation
+    tight = 1e-10 * sc * (1.0 if not off else max(1.0, off / 1e3))
 
     def reference_out(ti):
         """(independent expected apply(q) / h, usable?) for the fit source -> pool[ti]."""
@@ -308,7 +320,9 @@ def run_history(c, ctx):
             ctx.event("independent reference compared")
             rt = 1e-7 * sc
             ctx.expect(close(got.out, out_ref, rtol=0, atol=rt), "retarget_vs_reference.apply", lambda: info + "\n" + describe(got.out, out_ref))
-            if h_ref is not None:
+            if h_ref is not None and not off:
+                # (far from the origin the individual matrix entries are ill-determined - the translation column absorbs
+                # offset * linear part - while the map on the data is not: with a frame offset only the map is compared)
                 ctx.expect(close(got.h, h_ref, rtol=0, atol=rt), "retarget_vs_reference.h_matrix", lambda: info + "\n" + describe(got.h, h_ref))
         else:
             ctx.event("independent reference not usable (ill-posed fit)")
@@ -406,6 +420,31 @@ def run_history(c, ctx):
     ctx.nontrivial(n_distinct_arrays >= 2 and (not has_opts or bool(visible)))
 
 
+@st.composite
+def s_extras(draw, base):
+    """Adds to a history case: which pool targets are given with integer dtype (rounded), a near-duplicate of a pool
+    target set right after the original on the same object, and (warps) a coordinate frame far from the origin."""
+    c = draw(base)
+    k = len(c["targets"])
+    c["int_targets"] = draw(st.lists(st.sampled_from([False, False, True]), min_size=k, max_size=k))
+    j = draw(st.integers(0, k - 1))
+    eps = draw(st.sampled_from([2.0 ** -14, 2.0 ** -17, 2.0 ** -20]))
+    near = [list(p) for p in c["targets"][j]]
+    row = draw(st.integers(0, len(near) - 1))
+    col = draw(st.integers(0, c["d"] - 1))
+    near[row][col] = near[row][col] + eps * 10.0
+    c["targets"].append(near)
+    c["int_targets"].append(False)
+    c["int_targets"][j] = False
+    who = draw(st.integers(0, MAX_LIVE - 1))
+    pos = draw(st.integers(0, len(c["steps"])))
+    c["steps"][pos:pos] = [["set", who, j, False], ["set", who, k, False]]
+    c["near_dup"] = [j, k]
+    # a frame: every coordinate of the case (source, targets, probes) is mapped x -> offset + x (geo-referenced data)
+    c["frame_offset"] = draw(st.sampled_from([0.0, 0.0, 0.0, 4.5e5, 1.0e3]))
+    return c
+
+
 def c_homog(c, ctx):
     run_history(c, ctx)
 
@@ -490,10 +529,10 @@ def c_gpa(c, ctx):
 
 
 CLAUSES = [
-    Clause("history_homogeneous", c_homog, s_homog, quick=1500, thorough=30000, nt_floor=0.4,
+    Clause("history_homogeneous", c_homog, lambda: s_extras(s_homog()), quick=1500, thorough=30000, nt_floor=0.4,
            rule="set_target / rejected target / copy / from_vector histories on the 5 homogeneous alignment classes x options x 2-D/3-D; "
                 "non-trivial: >= 2 accepted retargets with distinct targets and (if the class has options) an option visibly matters"),
-    Clause("history_warp", c_warp, s_warp, quick=800, thorough=20000, nt_floor=0.4,
+    Clause("history_warp", c_warp, lambda: s_extras(s_warp()), quick=800, thorough=20000, nt_floor=0.4,
            rule="the same histories on ThinPlateSplines (kernel x floor) and PythonPWA/CachedPWA (PointCloud / explicit TriMesh source)"),
     Clause("gpa", c_gpa, s_gpa, quick=400, thorough=8000, nt_floor=0.4,
            rule="GeneralizedProcrustesAnalysis(target=None): each transform is the alignment of its own source to the reported target; "
